@@ -138,8 +138,20 @@ def run_compact(case):
                                               16, 17, 20, 21, 22, 30, 100, -100])
         return rnd.uniform(-1, 1) * 10.0 ** rnd.randint(-12, 12)
     M = [[entry() for _ in range(4)] for _ in range(4)]
+    # the matrix arrives as nested lists, or as a float64 array in any memory layout (C order,
+    # Fortran order as column-major libraries produce it, a transposed view)
+    form = ("lists", "c_array", "f_array", "transposed_view")[case["mseed"] % 4]
+    obs["compact_matrix_forms"] = {form: 1}
+    arg = M
+    if form != "lists":
+        import numpy as np
+        arg = np.array(M, dtype=np.float64)
+        if form == "f_array":
+            arg = np.asfortranarray(arg)
+        elif form == "transposed_view":
+            arg = np.ascontiguousarray(arg.T).T
     try:
-        comp = tr.matrix_as_compact_urlsafe_json(M)
+        comp = tr.matrix_as_compact_urlsafe_json(arg)
     except Exception as exc:  # noqa: BLE001
         return {"violations": [{"kind": "compact-form-raised",
                                 "detail": f"{M}: {type(exc).__name__}: {exc}"}], "obs": obs}
@@ -419,6 +431,8 @@ def gates(obs, tier):
         "library_and_command_line": len(obs.get("vias", {})) == 2,
         "voxels_checked": obs.get("voxels_checked", 0) > 1000,
         "sub_micrometre_voxels": obs.get("voxel_volume_below_1e_10_mm3", 0) > 100,
+        "compact_form_of_arrays_in_every_memory_layout": len(
+            obs.get("compact_matrix_forms", {})) == 4,
         "headers_with_differing_qform_and_sform": obs.get(
             "headers_with_differing_qform_and_sform", 0) > 100,
         "headers_declaring_a_spatial_unit": obs.get("headers_declaring_a_spatial_unit", 0) > 100,
